@@ -879,10 +879,26 @@ func (g *gen) declLocal(depth int) {
 			}
 		}
 	}
-	kind := g.r.Intn(14)
+	kind := g.r.Intn(15)
 	if g.forceDecl > 0 {
 		kind = g.forceDecl
 		g.forceDecl = 0
+	}
+	if kind == 14 {
+		// two-value map read: the key may be absent
+		m := g.pick(tMapII, false)
+		if m == nil || g.noHeap {
+			kind = 0
+		} else {
+			k, _ := g.intExpr(1)
+			ok := g.fresh("ok")
+			g.f("map-comma-ok")
+			g.w("%s, %s := %s[%s %% 8]", name, ok, m.name, k)
+			g.w("_, _ = %s, %s", name, ok)
+			g.push(&vr{name: name, t: tInt, bound: m.bound})
+			g.push(&vr{name: ok, t: tBool})
+			return
+		}
 	}
 	switch kind {
 	case 0, 1, 2, 3, 4:
@@ -2053,7 +2069,7 @@ func (g *gen) genFunc(p fnPlan) {
 			continue
 		}
 		seen[v.name] = true
-		if v.global && g.r.Intn(3) > 0 {
+		if v.global && v.name != "glog" && g.r.Intn(3) > 0 {
 			continue
 		}
 		g.foldVar(acc, v)
